@@ -40,12 +40,16 @@ type ConfCase struct {
 	// Start: the chains' batch-nonce and sequence counters begin here (so that nonces like 255, 256, 65535 occur);
 	// contract calls are numbered from Start+1 too
 	Start uint64 `json:"start,omitempty"`
+	// TokSpell: how the token list spells the contract addresses: 0 checksummed, 1 lower case, 2 upper-case digits
+	// (all admissible; outgoing transactions and their confirmations are stored under the id exactly as listed)
+	TokSpell int `json:"tok_spell,omitempty"`
 }
 
 var confChains = []string{"ethereum", "bsc"}
 
 func genConfCase(t *rapid.T) interface{} {
 	c := &ConfCase{Start: rapid.SampledFrom([]uint64{0, 0, 0, 253, 254, 255, 65533, 65534, 16777214}).Draw(t, "start")}
+	c.TokSpell = rapid.SampledFrom([]int{0, 0, 0, 1, 2}).Draw(t, "tokspell")
 	n := rapid.IntRange(6, 50).Draw(t, "nops")
 	for i := 0; i < n; i++ {
 		k := rapid.IntRange(0, 99).Draw(t, "k")
@@ -113,7 +117,18 @@ type confRec struct {
 func runConfCase(ci interface{}, rec *pbt.Rec) *pbt.Failure {
 	c := ci.(*ConfCase)
 	keys := []string{"ethereum", "bsc"}
-	cfg := sim.Config{Tokens: attTokens, Prices: []sim.PriceCfg{{Name: "hub", Value: "1"}, {Name: "eth", Value: "1"}, {Name: "bnb", Value: "1"}},
+	toks := append([]sim.TokenCfg{}, attTokens...)
+	for i := range toks {
+		if strings.HasPrefix(toks[i].ExtId, "0x") {
+			switch c.TokSpell {
+			case 1:
+				toks[i].ExtId = strings.ToLower(toks[i].ExtId)
+			case 2:
+				toks[i].ExtId = "0x" + strings.ToUpper(toks[i].ExtId[2:])
+			}
+		}
+	}
+	cfg := sim.Config{Tokens: toks, Prices: []sim.PriceCfg{{Name: "hub", Value: "1"}, {Name: "eth", Value: "1"}, {Name: "bnb", Value: "1"}},
 		Vals: []sim.ValCfg{{Power: 10, Bonded: true, Keys: keys}, {Power: 12, Bonded: true, Keys: keys}, {Power: 5, Bonded: true, Keys: []string{"ethereum"}}, {Power: 9, Bonded: false, Keys: keys}}}
 	cfg.StartBatchNonce, cfg.StartSequence = c.Start, c.Start
 	h := sim.NewHub(cfg)
@@ -208,7 +223,7 @@ func runConfCase(ci interface{}, rec *pbt.Rec) *pbt.Failure {
 		case 1:
 			if unknown && t.batch.BatchNonce%2 == 1 {
 				// no such outgoing tx either: the token id in another spelling (ids are strings; the store key is the string)
-				return &mtypes.BatchTxConfirmation{ExternalTokenId: strings.ToLower(t.batch.ExternalTokenId), BatchNonce: t.batch.BatchNonce, ExternalSigner: signer.Hex(), Signature: sig}
+				return &mtypes.BatchTxConfirmation{ExternalTokenId: otherSpelling(t.batch.ExternalTokenId), BatchNonce: t.batch.BatchNonce, ExternalSigner: signer.Hex(), Signature: sig}
 			}
 			return &mtypes.BatchTxConfirmation{ExternalTokenId: t.batch.ExternalTokenId, BatchNonce: t.batch.BatchNonce + bump, ExternalSigner: signer.Hex(), Signature: sig}
 		default:
@@ -412,7 +427,7 @@ func runConfCase(ci interface{}, rec *pbt.Rec) *pbt.Failure {
 			extH += 10000000
 			n := h.K.GetLastObservedEventNonce(h.Ctx(), mtypes.ChainID(ch)) + 1
 			var ext string
-			for _, tk := range attTokens {
+			for _, tk := range toks {
 				if tk.Chain == ch && tk.Denom == "hub" {
 					ext = tk.ExtId
 				}
@@ -611,4 +626,15 @@ func TestC16(t *testing.T) {
 		Run:         runConfCase,
 		Assumptions: []string{"re-registration of keys is generated rarely; its effect on the attribution of old confirmations is a recorded finding", "the statement does not require the signature bytes to verify; they are not judged"},
 	}).Main(t)
+}
+
+// otherSpelling: the same contract address written differently from id (lower case, or upper-case digits if id is lower case already).
+func otherSpelling(id string) string {
+	if l := strings.ToLower(id); l != id {
+		return l
+	}
+	if strings.HasPrefix(id, "0x") {
+		return "0x" + strings.ToUpper(id[2:])
+	}
+	return id + " "
 }
